@@ -472,7 +472,7 @@ func (g *G) headerCase() string {
 		h.alg = jq("none")
 		tag, expect = "hdr-alg-none", ":R"
 	case 2:
-		h.alg = hx.PickS(r, []string{jq(strings.ToLower(signer.Alg)), jq(signer.Alg + " "), jq(""), "null", "256", "[" + jq(signer.Alg) + "]", "true"})
+		h.alg = hx.PickS(r, []string{jq(strings.ToLower(signer.Alg)), jq(strings.ToLower(signer.Alg)), jq(signer.Alg[:1] + strings.ToLower(signer.Alg[1:])), jq(signer.Alg + " "), jq(""), "null", "256", "[" + jq(signer.Alg) + "]", "true"})
 		tag, expect = "hdr-alg-bad", ":R"
 	case 3:
 		h.alg = ""
@@ -566,7 +566,7 @@ func (g *G) structureCase() string {
 	tok := g.assemble(signer, hj, pj, b64Enc, b64Enc, b64Enc)
 	parts := strings.Split(tok, ".")
 	tag, expect := "", ":R"
-	bad := []string{"+", "/", " ", "\n", "\r", "=", "\xc3\xa9", "*", "\x00", ",", "~"}
+	bad := []string{"\n", "\r", "\r\n", "+", "/", " ", "=", "\xc3\xa9", "*", "\x00", ",", "~", "\xff"}
 	switch r.Intn(19) {
 	case 0:
 		tok, tag = tok+".", "str-trailing-dot"
@@ -888,9 +888,127 @@ func (g *G) encodeCase() string {
 	return lineE(prim(mac), d, c, o, tag)
 }
 
+// directed: the systematic products that every run covers regardless of the
+// seed: each time bound x distance x skew; the expected/ignore/present matrix
+// of typ, iss, aud; each kid rule x header kid shape; alg confusion.
+func directed() []string {
+	g := &G{r: hx.NewRng(20250925), pool: map[string][]string{}}
+	var out []string
+	mk := func(alg string, kid byte, id uint32) kd {
+		d := kd{ID: id, Enabled: true, Primary: true, Alg: alg, Kid: kid, Mat: g.material(alg)}
+		if kid == 'C' {
+			d.CustomKid = "custom-kid"
+		}
+		return d
+	}
+	hs := mk("HS256", 'I', 11)
+	es := mk("ES256", 'T', 0x01020304)
+	now := int64(baseNow)
+	hdrOf := func(d kd) string { return hdrSpec{alg: jq(d.Alg), kid: correctKid(d)}.json(0) }
+	// 1. time bounds
+	for _, d := range []kd{hs, es} {
+		for _, which := range []string{"exp", "nbf", "iat"} {
+			for _, delta := range deltas {
+				for _, skew := range []int64{0, 600e9, -1e9, 1} {
+					t := now + 100
+					o := vo{IgnTyp: true, IgnAud: true, IgnIss: true, AllowNoExp: true, Skew: skew, IatPast: which == "iat"}
+					if which == "exp" {
+						o.Now = new(big.Int).Add(nsOf(t), big.NewInt(skew-delta))
+					} else {
+						o.Now = new(big.Int).Sub(nsOf(t), big.NewInt(skew+delta))
+					}
+					exp := "A"
+					if (which == "exp") == (delta <= 0) {
+						exp = "R"
+					}
+					tok := g.assemble(d, hdrOf(d), fmt.Sprintf(`{"%s":%d}`, which, t), b64Enc, b64Enc, b64Enc)
+					out = append(out, lineV("V", prim(isMACAlg(d.Alg)), []kd{d}, o, tok, fmt.Sprintf("dir-%s%+d:%s", which, delta, exp)))
+				}
+			}
+		}
+	}
+	// 2. presence matrix
+	type cl struct{ name, json, match string }
+	for _, c := range []cl{{"typ", `"JWT"`, "JWT"}, {"iss", `"issuer"`, "issuer"}, {"aud", `"a1"`, "a1"}, {"aud", `["a0","a1"]`, "a1"}} {
+		for _, present := range []bool{false, true} {
+			for mode := 0; mode < 5; mode++ {
+				hdr, pl := hdrSpec{alg: jq(hs.Alg)}, fmt.Sprintf(`{"exp":%d}`, now+3600)
+				if present {
+					if c.name == "typ" {
+						hdr.typ = c.json
+					} else {
+						pl = fmt.Sprintf(`{"exp":%d,"%s":%s}`, now+3600, c.name, c.json)
+					}
+				}
+				o := vo{IgnTyp: true, IgnAud: true, IgnIss: true, Now: new(big.Int).Mul(big.NewInt(now), e9)}
+				var e *string
+				ign := false
+				switch mode {
+				case 1:
+					e = sp(c.match)
+				case 2:
+					e = sp("other")
+				case 3:
+					ign = true
+				case 4:
+					e, ign = sp(c.match), true
+				}
+				exp := "R"
+				switch {
+				case mode == 4:
+					exp = "B"
+				case mode == 3, mode == 0 && !present, mode == 1 && present:
+					exp = "A"
+				}
+				switch c.name {
+				case "typ":
+					o.Typ, o.IgnTyp = e, ign
+				case "iss":
+					o.Iss, o.IgnIss = e, ign
+				default:
+					o.Aud, o.IgnAud = e, ign
+				}
+				tok := g.assemble(hs, hdr.json(0), pl, b64Enc, b64Enc, b64Enc)
+				out = append(out, lineV("V", "M", []kd{hs}, o, tok, fmt.Sprintf("dir-presence-%s-%v-%d:%s", c.name, present, mode, exp)))
+			}
+		}
+	}
+	// 3. kid rules x header kid
+	for _, fam := range []string{"HS384", "ES384", "RS256", "PS256"} {
+		for _, rule := range []byte{'T', 'I', 'C'} {
+			d := mk(fam, rule, 0xfffefdfc)
+			for i, kid := range []string{"", correctKid(d), jq("wrong"), "7", jq(tinkKid(d.ID)), jq("custom-kid")} {
+				if i == 1 && kid == "" {
+					continue
+				}
+				h := hdrSpec{alg: jq(d.Alg), kid: kid}
+				tok := g.assemble(d, h.json(0), g.simplePayload(now), b64Enc, b64Enc, b64Enc)
+				out = append(out, lineV("V", prim(isMACAlg(fam)), []kd{d}, easyValidator(now), tok, fmt.Sprintf("dir-kid-%c-%d", rule, i)))
+			}
+		}
+	}
+	// 4. algorithm confusion
+	rs := mk("RS256", 'I', 5)
+	for _, alg := range []string{"none", "None", "NONE", "HS256", "RS384", "PS256", "rs256", "RS256"} {
+		h := hdrSpec{alg: jq(alg)}
+		exp := "R"
+		if alg == "RS256" {
+			exp = "A"
+		}
+		tok := g.assemble(rs, h.json(0), g.simplePayload(now), b64Enc, b64Enc, b64Enc)
+		out = append(out, lineV("V", "S", []kd{rs}, easyValidator(now), tok, "dir-alg-"+alg+":"+exp))
+		conf := kd{Alg: "HS256", Mat: hx.H(rsaKey(rs.Mat).n)}
+		tok = g.assemble(conf, h.json(0), g.simplePayload(now), b64Enc, b64Enc, b64Enc)
+		out = append(out, lineV("V", "S", []kd{rs}, easyValidator(now), tok, "dir-alg-hmac-with-modulus-"+alg+":R"))
+		unsigned := tok[:strings.LastIndex(tok, ".")]
+		out = append(out, lineV("V", "S", []kd{rs}, easyValidator(now), unsigned+".", "dir-alg-unsigned-"+alg+":R"))
+	}
+	return out
+}
+
 func gen(r *hx.Rng, n int, tier string) []string {
 	g := &G{r: r, tier: tier, pool: map[string][]string{}}
-	var out []string
+	out := directed()
 	for len(out) < n {
 		switch k := r.Intn(100); {
 		case k < 30:
